@@ -230,6 +230,66 @@ theorem C20_status_size_match_sent (m : PathB → PathB → Bool) (errLen : Nat 
           exact ⟨hag.2.1, hag.2.2.1⟩
         · cases he
 
+/-- A Write the writer underneath REFUSES (declared Content-Length exceeded: `http.ErrContentLength`)
+still sends the header.  The handler declares `k` bytes, writes `n > k` bytes without WriteHeader and
+returns any status (for `ret ≥ 400` the middleware's failover then calls WriteHeader(ret) and writes
+the error body, which is refused too): the client has received status 200 and no body byte, and every
+line written says exactly that — never `ret`. -/
+theorem C20_refused_first_write_is_logged_as_sent (m : PathB → PathB → Bool) (errLen : Nat → Nat)
+    (rules : List Rule) (path : PathB) (k n ret : Nat) (hkn : k < n) :
+    let r := serverServe m errLen rules path { ops := [.declare k, .write n], ret := ret, panics := false }
+    r.client.status = 200 ∧ r.client.size = 0 ∧ ∀ l ∈ r.lines, l.status = 200 ∧ l.size = 0 := by
+  intro r
+  have hacc := C20_status_size_match_sent m errLen rules path
+    { ops := [.declare k, .write n], ret := ret, panics := false }
+  have hn0 : (n == 0) = false := by
+    cases n with
+    | zero => omega
+    | succ j => rfl
+  have hle : ¬ (n ≤ k) := by omega
+  have hcl : r.client.status = 200 ∧ r.client.size = 0 := by
+    show (serverServe m errLen rules path _).client.status = 200 ∧ (serverServe m errLen rules path _).client.size = 0
+    unfold serverServe loggerServe
+    cases hf : rules.find? fun r => m path r.scope with
+    | none =>
+      by_cases hr : ret ≥ 400
+      · simp [hr, clientOps, errorOps, Client.apply, Client.accepts, hn0, hle]
+        omega
+      · simp [hr, clientOps, Client.apply, Client.accepts, hn0, hle]
+    | some rule =>
+      by_cases hr : ret ≥ 400
+      · simp [hr, runOps, errorOps, Client.apply, Client.accepts, hn0, hle]
+        omega
+      · simp [hr, runOps, Client.apply, Client.accepts, hn0, hle]
+  refine ⟨hcl.1, hcl.2, ?_⟩
+  intro l hl
+  have := hacc l hl
+  exact ⟨this.1.trans hcl.1, this.2.trans hcl.2⟩
+
+/-- test: the instance of the seeded regression — `Content-Length: 0` declared (stat of a file that
+has grown since), 5 bytes written, 500 returned: line `200 0`, client `200` with no body; and the
+judge rejects an implementation whose line says 500 -/
+example :
+    let ds : List Directive := [{ scope := [47], excepts := [] }]
+    let r := serverServe cleanPathMatches (fun _ => 26) (logParse ds) [47, 120]
+      { ops := [.declare 0, .write 5], ret := 500, panics := false }
+    r.lines = [{ entry := 0, status := 200, size := 0 }] ∧ r.client.status = 200 ∧ r.client.size = 0 ∧
+    verdictClass cleanPathMatches ds [47, 120] false [{ entry := 0, status := 500, size := 0 }] 200 0
+      = .statusMismatch := by
+  decide
+
+/-- test: the refusal counts bytes ASKED for (net/http's `response.written`): after a refused Write
+a smaller one is refused too; a Write that fits exactly is accepted; a Content-Length set after the
+header has gone out is not in effect -/
+example :
+    let run := fun ops => (serverServe cleanPathMatches (fun _ => 26) (logParse [{ scope := [47], excepts := [] }]) [47, 120]
+      { ops := ops, ret := 0, panics := false })
+    (run [.declare 2, .write 5, .write 1]).lines = [{ entry := 0, status := 200, size := 0 }] ∧
+    (run [.declare 5, .write 5, .write 1]).lines = [{ entry := 0, status := 200, size := 5 }] ∧
+    (run [.header 404, .declare 0, .write 3]).lines = [{ entry := 0, status := 404, size := 3 }] ∧
+    (run [.declare 0, .write 3, .header 404]).lines = [{ entry := 0, status := 200, size := 0 }] := by
+  decide
+
 /-- The log decision is taken on the path AS RECEIVED: whatever path the inner handler (or a
 rewrite/ext/internal directive in front of it) leaves in the request — `o.newPath`, set in place
 or by replacing `r.URL` — the lines written and the client's response are the same. -/
